@@ -279,6 +279,31 @@ def new_object(kind, weighted, ctor=None):
     return cls(weighted=weighted)
 
 
+def construct(kind, weighted, op):
+    """Build an object through the constructor's arguments (fresh copies of every dict)."""
+    import json
+
+    cp = lambda x: json.loads(json.dumps(x))  # noqa
+    hx = sut()
+    cls = {"H": hx.Hypergraph, "D": hx.DirectedHypergraph, "T": hx.TemporalHypergraph, "M": hx.MultiplexHypergraph}[kind]
+    kw = {"weighted": weighted}
+    if op.get("hmeta") is not None:
+        kw["hypergraph_metadata"] = cp(op["hmeta"])
+    if op.get("nmd"):
+        kw["node_metadata"] = {n: cp(m) for n, m in op["nmd"]}
+    if op.get("es"):
+        kw["edge_list"] = [_edge_arg(kind, e, "t") for e in op["es"]]
+        if op.get("ws") is not None:
+            kw["weights"] = list(op["ws"])
+        if op.get("mds") is not None:
+            kw["edge_metadata"] = [cp(m) for m in op["mds"]]
+        if kind == "T":
+            kw["time_list"] = list(op["ts"])
+        if kind == "M":
+            kw["edge_layer"] = list(op["layers"])
+    return cls(**kw)
+
+
 def _edge_arg(kind, e, form):
     mk = tuple if form != "l" else list
     if kind == "D":
